@@ -73,21 +73,26 @@ def k_value(kspec, n):
 def gen_run(rng: random.Random, quick: bool, force=None):
     """a run description (JSON-serialisable, regenerates all data from `seed`)"""
     force = force or {}
-    c = {"kind": "run", "seed": rng.randrange(1 << 40)}
+    c = {"kind": "run", "seed": force.get("seed", rng.randrange(1 << 40))}
     c["filter"] = force.get("filter", rng.choice(["ekf", "ukf"]))
-    c["n"] = rng.choice([1, 2, 3, 4, 5, 6, 2, 3])
-    c["m"] = rng.choice([1, 2, 3, 4, 5, 6, 1, 2])
-    c["p"] = rng.choice([1, 2, 3, 4, 5, 6, 1, 2])
+    c["n"] = force.get("n", rng.choice([1, 2, 3, 4, 5, 6, 2, 3]))
+    c["m"] = force.get("m", rng.choice([1, 2, 3, 4, 5, 6, 1, 2]))
+    c["p"] = force.get("p", rng.choice([1, 2, 3, 4, 5, 6, 1, 2]))
     c["dtype"] = force.get("dtype", rng.choice(["float64", "float64", "float64", "float32"]))
     c["nonlinear"] = force.get("nonlinear", rng.random() < 0.3)
     c["T"] = force.get("T", rng.choice([1, 1, 2, 3, 5, 8] + ([20] if quick else [20, 50, 50])))
     c["k"] = force.get("k", rng.choice(K_CHOICES))
-    if c["filter"] == "ukf" and c["k"] == 0 and c["n"] == 3:
+    if c["filter"] == "ukf" and c["k"] == 0 and c["n"] == 3 and "n" not in force:
         c["n"] = rng.choice([1, 2, 4, 5, 6])        # k = 0 coincides with the default 3 - n only for n = 3
-    c["qr_mode"] = rng.choice(["call", "call", "ctor", "both"])
-    c["t_mode"] = rng.choice(["none", "none", "tensor", "reset"])
+    c["qr_mode"] = force.get("qr_mode", rng.choice(["call", "call", "ctor", "both", "both"]))
+    c["t_mode"] = force.get("t_mode", rng.choice(["none", "none", "tensor", "reset", "mixed"]))
     c["timevar"] = c["t_mode"] != "none" or rng.random() < 0.3
-    c["vary_qr"] = rng.random() < 0.3 and c["qr_mode"] != "ctor"
+    c["vary_qr"] = force.get("vary_qr", rng.random() < 0.3 and c["qr_mode"] != "ctor")
+    # everything the API takes per call varies between the calls of one run on ONE filter object: k (None <-> explicit
+    # values), Q/R (given per call <-> taken from the constructor), t (None <-> tensor), u, y
+    c["vary_k"] = force.get("vary_k", c["filter"] == "ukf" and c["T"] >= 2 and rng.random() < 0.6)
+    if "k_seq" in force:
+        c["k_seq"] = force["k_seq"]
     f32 = c["dtype"] == "float32"
     c["cond"] = rng.choice([1.0, 10.0, 100.0] if f32 else [1.0, 10.0, 1e2, 1e4, 1e6])
     c["scales"] = [10 ** rng.uniform(-3, 3) for _ in range(3)] if not f32 else [10 ** rng.uniform(-1.5, 1.5) for _ in range(3)]
@@ -96,7 +101,48 @@ def gen_run(rng: random.Random, quick: bool, force=None):
     # result must not depend on the choice of the root (theorem ukf_linear_eq_kf); the model uses Cholesky
     c["msqrt"] = "sym" if (c["filter"] == "ukf" and not c["nonlinear"] and rng.random() < 0.25) else "default"
     c["xmag"] = rng.choice([0.0, 1e-3, 1.0, 1.0, 10.0, 1e3])
+    c.update({kx: force[kx] for kx in ("cond", "scales", "xmag", "diag", "msqrt") if kx in force})
     return c
+
+
+K_SEQ = ["none", 1.5, 0, -1.0, 4, "none"]
+NICE = {"cond": 10.0, "scales": [2.0, 0.5, 1.0], "xmag": 1.0, "diag": False}
+
+
+def corpus_runs(quick: bool):
+    """Deterministic runs executed for EVERY seed: one filter object, every per-call argument changing between
+    consecutive calls (k: None <-> explicit values of both signs, Q/R: per call <-> constructor, t: None <-> tensor)."""
+    specs = [
+        dict(NICE, filter="ukf", n=3, m=2, p=2, dtype="float64", nonlinear=False, T=6, k_seq=K_SEQ, qr_mode="both",
+             t_mode="mixed", vary_qr=True),
+        dict(NICE, filter="ukf", n=3, m=1, p=3, dtype="float64", nonlinear=True, T=6, k_seq=K_SEQ, qr_mode="call",
+             t_mode="mixed", vary_qr=False),
+        dict(NICE, filter="ukf", n=2, m=2, p=1, dtype="float32", nonlinear=False, T=5, k_seq=["none", 2, "-n+0.5", "none", 10],
+             qr_mode="ctor", t_mode="none", vary_qr=False),
+        dict(NICE, filter="ukf", n=5, m=1, p=2, dtype="float64", nonlinear=False, T=4, k_seq=[1, "none", 100, 0.5],
+             qr_mode="both", t_mode="tensor", vary_qr=True, msqrt="sym"),
+        dict(NICE, filter="ukf", n=1, m=1, p=1, dtype="float64", nonlinear=False, T=4, k_seq=[0, 2, "none", -0.5],
+             qr_mode="call", t_mode="none", vary_qr=True),
+        dict(NICE, filter="ekf", n=3, m=2, p=2, dtype="float64", nonlinear=False, T=6, qr_mode="both", t_mode="mixed",
+             vary_qr=True),
+        dict(NICE, filter="ekf", n=2, m=1, p=2, dtype="float64", nonlinear=True, T=5, qr_mode="both", t_mode="mixed",
+             vary_qr=True),
+    ]
+    out = []
+    for i, sp in enumerate(specs):
+        c = gen_run(random.Random(130100 + i), quick, dict(sp, seed=130100 + i))
+        c["corpus"] = i
+        out.append(c)
+    return out
+
+
+def corpus_pf():
+    out = []
+    for i, (n, N, nl) in enumerate([(2, 17, False), (3, 8, True)]):
+        c = gen_pf(random.Random(130200 + i), False, True, {"dtype": "float64", "nonlinear": nl, "N": N})
+        c.update(seed=130200 + i, n=n, m=1, p=2, T=3, qr_mode="both", corpus=i)
+        out.append(c)
+    return out
 
 
 def materialise_run(c):
@@ -117,8 +163,15 @@ def materialise_run(c):
               "ydev": [rng.gauss(0, 1) * rng.choice([0.0, 0.3, 1.0, 1.0, 3.0, 30.0]) for _ in range(p)]}
         if c["vary_qr"]:
             st["Q"], st["R"] = mk(n, sQ * 10 ** rng.uniform(-1, 1)), mk(p, sR * 10 ** rng.uniform(-1, 1))
-        if c["t_mode"] == "tensor":
+        if c["t_mode"] == "tensor" or (c["t_mode"] == "mixed" and rng.random() < 0.5):
             st["t"] = float(rng.choice([0.0, 0.5, 2.0, -1.0, float(j)]))
+        if c.get("k_seq"):
+            st["k"] = c["k_seq"][j % len(c["k_seq"])]
+        elif c.get("vary_k"):
+            st["k"] = rng.choice(K_CHOICES)
+        else:
+            st["k"] = c["k"]
+        st["pass_qr"] = c["qr_mode"] == "call" or (c["qr_mode"] == "both" and rng.random() < 0.5)
         d["steps"].append(st)
     d["t_reset"] = rng.choice([1, 3, 7]) if c["t_mode"] == "reset" else 0
     return d
@@ -175,15 +228,19 @@ def run_one(ctx: Ctx, c, lines, metas, verbose=False):
         ctx.count("ukf.msqrt=sym")
     else:
         filt = (P_.module.UKF if is_ukf else P_.module.EKF)(model, Q=ctorQ, R=ctorR)
-    kspec = c["k"]
-    kval = k_value(kspec, n)
     x, P = T(d["x0"]), T(d["P0"])
     mon = common.PurityMonitor()
     prev_tolP = 0.0
     for j, st in enumerate(d["steps"]):
         in_asym, in_lam = sym_defect(P)
-        Ql = st.get("Q", d["Qc"])
-        Rl = st.get("R", d["Rc"])
+        kspec = st["k"]
+        kval = k_value(kspec, n)
+        if st["pass_qr"]:
+            Ql, Rl = st.get("Q", d["Qc"]), st.get("R", d["Rc"])
+        elif c["qr_mode"] == "both":           # not given for this call: the constructor's values apply
+            Ql, Rl = d["Qdecoy"], d["Rdecoy"]
+        else:
+            Ql, Rl = d["Qc"], d["Rc"]
         u = T(st["u"])
         tval = st.get("t")
         t_arg = None if tval is None else torch.tensor(tval, dtype=dt)
@@ -200,9 +257,9 @@ def run_one(ctx: Ctx, c, lines, metas, verbose=False):
         if not bool(torch.isfinite(y).all()):
             break
         yl = y.double().tolist()
-        stepcase = dict(c, step=j)
+        stepcase = dict(c, step=j, k_call=kspec)
         kw = {}
-        if c["qr_mode"] != "ctor":
+        if st["pass_qr"]:
             kw["Q"], kw["R"] = T(Ql), T(Rl)
         if t_arg is not None:
             kw["t"] = t_arg
@@ -227,13 +284,17 @@ def run_one(ctx: Ctx, c, lines, metas, verbose=False):
             except (np.linalg.LinAlgError, ZeroDivisionError, FloatingPointError):
                 uinfo = None
         centre_ok = (not is_ukf) or kval >= 0
-        sig = (c["filter"], n, m, p, c["dtype"], lin, str(kspec) if is_ukf else "-", min(j, 3), c["qr_mode"], c["t_mode"],
+        sig = (c["filter"], n, m, p, c["dtype"], lin, str(kspec) if is_ukf else "-", min(j, 3), c["qr_mode"], st["pass_qr"], c["t_mode"], bool(c.get("vary_k") or c.get("k_seq")),
                common.sig_mag(c["scales"][0]) // 2, common.sig_mag(c["scales"][2]) // 2, c["cond"])
         ctx.note_case(sig, True)
         ctx.count(f"run.{c['filter']}.{'lin' if lin else 'nonlin'}.{c['dtype']}")
         ctx.count(f"dims.n{n}")
         if is_ukf:
             ctx.count(f"ukf.k={kspec}")
+            if j > 0 and k_value(d["steps"][j - 1]["k"], n) != kval:
+                ctx.count("ukf.k-changed-between-calls")
+        if j > 0 and d["steps"][j - 1]["pass_qr"] != st["pass_qr"]:
+            ctx.count("run.qr-source-changed-between-calls")
         if err is not None:
             # a prior / predicted covariance that is singular at rounding level (its smallest eigenvalue is below
             # the tolerance of the call that produced it) has no Cholesky factor in floating point: not a verdict
@@ -331,7 +392,7 @@ def compare_runs(ctx: Ctx, lines, metas, verbose=False, reps=None):
             print(f"  call {case['step']}: model x={[float(v) for v in vals[:n]]}")
         if not (dx <= me["tolx"] and dP <= me["tolP"]):
             ctx.disagree("run", case, f"{case['filter']} call {case['step']}: implementation vs model |dx|={dx:.3e} "
-                                      f"(tol {me['tolx']:.3e}) |dP|={dP:.3e} (tol {me['tolP']:.3e}) k={case['k']} "
+                                      f"(tol {me['tolx']:.3e}) |dP|={dP:.3e} (tol {me['tolP']:.3e}) k={case.get('k_call', case['k'])} "
                                       f"n,m,p={n},{case['m']},{case['p']} dtype={case['dtype']}")
 
 
@@ -444,11 +505,22 @@ def materialise_pf(c):
         base = float(gv.var(axis=0).mean())
     base = base if base > 1e-12 else 1.0
     d["Rc"] = mk(p, base * rng.choice([1.0, 3.0] if c["nonlinear"] else [0.5, 1.0, 3.0]))
-    d["Qdecoy"], d["Rdecoy"] = mk(n, sQ * 3), mk(p, base * 40)
+    d["Qdecoy"], d["Rdecoy"] = mk(n, sQ * 3), mk(p, base * 4)
     d["steps"] = [{"u": uf.round_dt(uf.vec_mag(rng, m, [0.0, 0.1, 1.0]), dt),
                    "ydev": [rng.gauss(0, 1) * rng.choice([0.3, 1.0, 1.5]) for _ in range(p)],
                    "torch_seed": rng.randrange(1 << 31)} for _ in range(c["T"])]
+    for st in d["steps"]:
+        st["pass_qr"] = c["qr_mode"] == "call" or (c["qr_mode"] == "both" and rng.random() < 0.5)
     return d
+
+
+def pf_qr(c, d, st, T):
+    """(Q, R) in force for this call and the keyword arguments that carry them: given per call, or the constructor's"""
+    if st["pass_qr"]:
+        return d["Qc"], d["Rc"], {"Q": T(d["Qc"]), "R": T(d["Rc"])}
+    if c["qr_mode"] == "both":
+        return d["Qdecoy"], d["Rdecoy"], {}
+    return d["Qc"], d["Rc"], {}
 
 
 def pf_setup(c, d):
@@ -486,9 +558,9 @@ def run_pf_corr(ctx: Ctx, c, lines, metas):
         t_eff = float(model.systime)
         fam = uf.MpFam(d["prm"], t_eff)
         xl, Pl = x.double().tolist(), P.double().tolist()
-        y = T(pf_measurement(fam, st, n, p, xl, Pl, d["Rc"]))
+        Ql, Rl, kw = pf_qr(c, d, st, T)
+        y = T(pf_measurement(fam, st, n, p, xl, Pl, Rl))
         u = T(st["u"])
-        kw = {} if c["qr_mode"] == "ctor" else {"Q": T(d["Qc"]), "R": T(d["Rc"])}
         stepcase = dict(c, step=j)
         torch.manual_seed(st["torch_seed"])
         pf.rec = {}
@@ -514,7 +586,7 @@ def run_pf_corr(ctx: Ctx, c, lines, metas):
         if not (torch.equal(gx, x) and float((gP.double() - n * P.double()).abs().max()) <= 4 * eps * float((n * P.double()).abs().max())):
             ctx.fail(stepcase, "pf-prior: generate_particles was not called with (x, n*P)")
         # PSD of the returned covariance, always
-        scaleP = float(P2.double().abs().max()) + float(torch.tensor(d["Qc"]).abs().max()) + float(rec["xr"].double().abs().max()) ** 2
+        scaleP = float(P2.double().abs().max()) + float(torch.tensor(Ql).abs().max()) + float(rec["xr"].double().abs().max()) ** 2
         asym, lam, ok = psd_check(P2, CTOL * eps * scaleP)
         if not ok:
             ctx.fail(stepcase, f"psd: PF covariance asymmetry {asym:.3e} min eigenvalue {lam:.3e}")
@@ -526,7 +598,7 @@ def run_pf_corr(ctx: Ctx, c, lines, metas):
         # margin of the discrete decision
         cs = torch.cumsum(rec["q"].double(), dim=-1)
         margin = float((cs.unsqueeze(0) - r.double().unsqueeze(1)).abs().min())
-        lines.append(f"c13.pf {n} {m} {p} {N} 0:0 " + uf.step_tokens(d["prm"], t_eff, st["u"], y.double().tolist(), d["Qc"], d["Rc"], xl, Pl)
+        lines.append(f"c13.pf {n} {m} {p} {N} 0:0 " + uf.step_tokens(d["prm"], t_eff, st["u"], y.double().tolist(), Ql, Rl, xl, Pl)
                      + " " + common.wire_list(uf.flat(rec["xp"].double().tolist())) + " " + common.wire_list(r.double().tolist()))
         ly, lye, lR = (a.double() for a in rec["lik_args"])
         le = ly - lye
@@ -641,9 +713,9 @@ def run_pf_stat(ctx: Ctx, c, verbose=False):
         t_eff = float(model.systime)
         fam = uf.MpFam(d["prm"], t_eff)
         xl, Pl = x.double().tolist(), P.double().tolist()
-        yl = uf.round_dt(pf_measurement(fam, st, n, p, xl, Pl, d["Rc"]), dt)
+        Ql, Rl, kw = pf_qr(c, d, st, T)
+        yl = uf.round_dt(pf_measurement(fam, st, n, p, xl, Pl, Rl), dt)
         y, u = T(yl), T(st["u"])
-        kw = {} if c["qr_mode"] == "ctor" else {"Q": T(d["Qc"]), "R": T(d["Rc"])}
         stepcase = dict(c, step=j)
         torch.manual_seed(st["torch_seed"])
         pf.rec = {}
@@ -656,11 +728,11 @@ def run_pf_stat(ctx: Ctx, c, verbose=False):
         ctx.count(f"pf-stat.N={N}")
         ctx.count(f"pf-stat.{'nonlin' if c['nonlinear'] else 'lin'}.{c['dtype']}")
         if not c["nonlinear"]:
-            mean_f, var1, cfac, cov_f = lin_posterior(d, t_eff, st, yl, n, xl, Pl, d["Rc"])
+            mean_f, var1, cfac, cov_f = lin_posterior(d, t_eff, st, yl, n, xl, Pl, Rl)
             ref = [float(v) for v in mean_f]
             refcov = None
         else:
-            ref, var1, cfac, refvar = is_reference(c, d, fam, st, yl, xl, Pl, N)
+            ref, var1, cfac, refvar = is_reference(c, d, fam, st, yl, xl, Pl, N, Rl)
             if cfac > 200:      # the reference itself has collapsed onto a few samples: no verdict from this case
                 ctx.count("pf-stat.skipped-low-ess")
                 x, P = x2.detach(), P2.detach()
@@ -691,7 +763,7 @@ def run_pf_stat(ctx: Ctx, c, verbose=False):
         if not ok:
             ctx.fail(stepcase, f"psd: PF covariance asymmetry {asym:.3e} min eigenvalue {lam:.3e} (N={N})")
         if not c["nonlinear"] and verdict:
-            want = cov_f + uf.M(d["Qc"])
+            want = cov_f + uf.M(Ql)
             for i in range(n):
                 wv = float(want[i, i])
                 sd = wv * math.sqrt((2.0 + 3.0 * cfac) / N) * 3.0
@@ -707,7 +779,7 @@ def run_pf_stat(ctx: Ctx, c, verbose=False):
             break
 
 
-def is_reference(c, d, fam, st, yl, xl, Pl, N):
+def is_reference(c, d, fam, st, yl, xl, Pl, N, Rl):
     """independent self-normalised importance-sampling estimate of E[f(X)|y] for a non-linear family member
     (float64 numpy, own draws); returns (mean, per-sample variance incl. the reference's own error, N/ESS)"""
     n, p = c["n"], c["p"]
@@ -719,7 +791,7 @@ def is_reference(c, d, fam, st, yl, xl, Pl, N):
     nf = uf.NpFam(d["prm"], float(fam.t))
     u = np.array(st["u"])
     fx, gx = nf.f(X, u), nf.g(X, u)
-    Ri = np.linalg.inv(np.array(d["Rc"]))
+    Ri = np.linalg.inv(np.array(Rl))
     e = np.array(yl)[None, :] - gx
     ll = -0.5 * np.einsum("ij,jk,ik->i", e, Ri, e)
     w = np.exp(ll - ll.max())
@@ -752,12 +824,18 @@ def run(ctx: Ctx):
     # on affine systems the UKF result does not depend on k (theorem), so the handling of k is only visible on
     # non-linear members: one short non-linear run per k choice
     forced += [{"filter": "ukf", "nonlinear": True, "k": kc, "T": 2, "dtype": "float64"} for kc in K_CHOICES]
+    for c in corpus_runs(ctx.quick):
+        ctx.count("corpus.run")
+        run_one(ctx, c, lines, metas)
     for i in range(n_runs):
         c = gen_run(rng, ctx.quick, forced[i] if i < len(forced) else None)
         run_one(ctx, c, lines, metas)
     t1 = time.time()
     # PF with recorded draws
     plines, pmetas = [], []
+    for c in corpus_pf():
+        ctx.count("corpus.pf")
+        run_pf_corr(ctx, c, plines, pmetas)
     for i in range(ctx.pick(30, 120)):
         run_pf_corr(ctx, gen_pf(rng, False, ctx.quick), plines, pmetas)
     t2 = time.time()
@@ -814,6 +892,7 @@ def replay(ctx: Ctx, case) -> bool:
         case = {"case": bc[0]["case"]}
     c = dict(case["case"])
     c.pop("step", None)
+    c.pop("k_call", None)
     kind = c.get("kind")
     n0 = len(ctx.failures)
     if kind == "run":
